@@ -214,6 +214,9 @@ class SolverWrapper:
                         self.solver.changeColsLower(len(idxs), idxs, lbs)
                     else:
                         # As a conservative fallback, raise LB via changeColsBounds using current UBs fetched via getCols
+                        # (getCols only accepts an increasing index set: sort the indices, keeping lbs aligned with them)
+                        order = np.argsort(idxs, kind="stable")
+                        idxs, lbs = idxs[order], lbs[order]
                         status, nret, costs, lowers, uppers, nnz = self.solver.getCols(len(idxs), idxs)
                         # Use returned uppers in the same order as idxs
                         current_ubs = uppers.astype(np.float64, copy=False)
